@@ -7,6 +7,7 @@
   (`TokInRange`; the constructor rejects the others — known finding C04-KF1).
 -/
 import JP.Lemmas.PointerNav
+import JP.Generated.Tables
 namespace JP.Props.C14
 open JP JP.Pointer JP.Lemmas
 
@@ -78,6 +79,14 @@ theorem join_slash_replaces (dec : EscDec) (p : List Part) (rest : Str)
     (hb : rest.contains '\\' = false) :
     truediv dec p ('/' :: rest) = parse dec false ('/' :: rest) := by
   exact Lemmas.join_slash_replaces dec p rest hb
+
+/-- **Translated tables** (regenerated from pointer.py on every run): the index-token pattern, the keys
+    selector and the index limits in the source are the ones the model `parseIndexToken` / `indexOf` /
+    `getitem` were written for. A changed regular expression breaks this obligation even when harmless;
+    the check then searches for a failing input. -/
+theorem source_tables_ok :
+    Generated.reIndexToken = "(?:0|-?[1-9][0-9]*)" ∧ Generated.pointerKeysSelector = "~" ∧
+    Generated.pointerMaxIntIndex = maxIntIndex ∧ Generated.pointerMinIntIndex = minIntIndex := by decide
 
 /-! ### Non-vacuity -/
 example : rfcParse "/a~1b//01/-1/+1/~0".toList
